@@ -1,8 +1,2 @@
 #!/bin/bash
-set -e
-cd /verif
-mkdir -p bin
-[ -x bin/instr ] || (cd instr && go build -o /verif/bin/instr .)
-rm -rf build/c05.ov && mkdir -p build/c05.ov
-bin/instr -out build/c05.ov -full log,modules -harness h/c05/overlay
-go build -tags verif -overlay build/c05.ov/overlay.json -o "$1" ./h/c05
+exec /verif/h/smod/build.sh c05 "$1"
